@@ -136,6 +136,27 @@ def respell_rec(rng, m, rec, info):
     return (reps, anchor, dur, end), info
 
 
+def mode_siblings(m, rec, info, limit=2):
+    """The same recurrence arguments under other calendar modes (where its points are valid dates and, for the
+    start/second-point notation, still in order): [(mode, rec, info')].  The interval of a start/second-point
+    recurrence is the distance of its two points IN THAT CALENDAR, so info' carries it recomputed."""
+    out = []
+    info = dict(info)
+    for m2 in T.OTHER_MODES[m][:limit]:
+        if not all(t is None or T.valid(m2, t) for t in (rec[1], rec[3])):
+            continue
+        info2 = dict(info)
+        if rec[2] is None:
+            if rec[1] is None or rec[3] is None:
+                continue
+            secs = T.inst(m2, rec[3]) - T.inst(m2, rec[1])
+            if secs < 0:
+                continue
+            info2["interval"] = ("U", 0, 0, secs // 86400, 0, 0, secs % 86400)
+        out.append((m2, rec, info2))
+    return out
+
+
 def gen_sticky_rec(rng, m):
     """An unbounded recurrence whose anchor sits on a date that a whole-year / whole-month step has
     to clamp (leap day, day 366, last day of a long month, last week of a long year): stepping
